@@ -177,6 +177,9 @@ type Pair struct {
 	B int
 }
 
+type IntSet map[string]int
+type Queue chan int
+
 func (p Pair) Sum() int   { return p.A + p.B }
 func (p *Pair) Bump(d int) { p.A += d }
 
@@ -697,6 +700,14 @@ func (g *fgen) loop() {
 		inc := fmt.Sprintf("%s += %s", iv, step)
 		if step == "1" && r.Intn(2) == 0 {
 			inc = iv + "++"
+		}
+		switch r.Intn(6) {
+		case 0: // spelled-out update, induction variable on the left
+			inc = fmt.Sprintf("%s = %s + %s", iv, iv, step)
+			g.tag("loop-explicit-update")
+		case 1: // ... and on the right
+			inc = fmt.Sprintf("%s = %s + %s", iv, step, iv)
+			g.tag("loop-explicit-update")
 		}
 		g.w("for %s := %s; %s %s %s; %s {", iv, start, iv, cmp, g.bound(), inc)
 		g.push()
